@@ -2,7 +2,7 @@ import CalicoVerif.Util.Proto
 import CalicoVerif.Model.C39
 /-! Driver for C39.  Pool names are `pNN`; a CIDR token is `4:<hex>/<len>`, `6:<hex>/<len>` or `bad`.  Ops:
   `new` | `create pNN CIDR T` | `disable pNN 0|1` | `delete pNN` | `addblock CIDR` | `delblock CIDR` |
-  `setcond pNN T|F|N` | `setfin pNN 0|1` | `reconcile` | `verdicts` | `sort`
+  `setcond pNN T|F|N` | `setfin pNN 0|1` | `reconcile` | `reconcilef <status-fail names> <finalizer-fail names>` | `verdicts` | `sort`
 Every op except `verdicts`/`sort` answers with the whole state (pools by name). -/
 open CalicoVerif CalicoVerif.C36 CalicoVerif.C39 CalicoVerif.Proto
 
@@ -36,6 +36,13 @@ def parseName (s : String) : Option Nat :=
   match s.toList with
   | ['p', a, b] => if a.isDigit ∧ b.isDigit then some ((a.toNat - 48) * 10 + (b.toNat - 48)) else none
   | _ => none
+
+/-- `-` or a `+`-separated list of pool names. -/
+def parseNames (s : String) : Option (List Nat) :=
+  if s = "-" then some []
+  else (s.splitOn "+").foldr (fun w acc => match parseName w, acc with
+    | some n, some l => some (n :: l)
+    | _, _ => none) (some [])
 
 def showName (n : Nat) : String := "p" ++ (if n < 10 then "0" else "") ++ toString n
 
@@ -87,6 +94,9 @@ def step (s : State) (line : String) : State × String :=
     | some n => if b = "0" then ev s (.setFin n false) else if b = "1" then ev s (.setFin n true) else (s, "bad-op")
     | none => (s, "bad-op")
   | ["reconcile"] => ev s .reconcile
+  | ["reconcilef", a, b] => match parseNames a, parseNames b with
+    | some fs, some ff => ev s (.reconcileF fs ff)
+    | _, _ => (s, "bad-op")
   | ["verdicts"] =>
     let vs := verdicts s.pools
     (s, if vs.isEmpty then "-" else joinWith "," (vs.map fun pv => showName pv.1.name ++ "=" ++ showVerdict pv.2))
